@@ -13,7 +13,7 @@ mat = json.load(open(path)) if os.path.exists(path) else {}
 def sh(cmd, **kw): return subprocess.run(cmd, shell=True, capture_output=True, text=True, **kw)
 assert sh("git -C /repo status --porcelain").stdout.strip() == "", "/repo dirty"
 for n in names:
-    prop = n.split("_")[0]
+    prop = [x for x in n.split("_") if x.startswith("C")][0]
     ids = claimed if allchecks else [p for p in [prop] if p in claimed]
     if not ids:
         mat.setdefault(n, {})["note"] = "property %s not claimed yet" % prop; continue
